@@ -365,7 +365,7 @@ def e2_allocs(draw, nparts):
             'maxutil': draw(st.sampled_from(
                 [None, None, None, 0.5, 1.0, 1.5, 3.0])),
             'traits': draw(st.sampled_from(
-                [0, 0, 0, 0, 1, 2, 4, 3, 8, 9, 16])),
+                [0, 0, 0, 1, 2, 4, 3, 8, 8, 9, 16, 24])),
             'assign': assigns,
             'style': draw(st.integers(0, 7)),
         })
